@@ -101,8 +101,9 @@ def run(tier, replay=None):
     for args, rc, js, err in res:
         base = {"seed": args[0], "ngrid": ngrid, "nseq": nseq, "nsys": nsys}
         if rc != 0 or js is None:
-            v.violation("harness-crash:rc=%s" % rc, dict(base, ctx="", stderr=err))
-            continue
+            # a simulator fault inside a compared step is caught and reported as a mismatch by the harness itself;
+            # anything else that kills the process is a failure of the machinery, not a verdict on the property
+            raise common.HarnessError("lock-step worker ended with status %s: %s" % (rc, err[-500:]))
         for k in ("cases", "steps", "br_taken", "br_not", "loads", "stores", "sys_exit", "sys_write",
                   "sys_read", "sys_console", "sys_file", "sys_neg_stream", "sys_eof", "arch_reached"):
             tot[k] = tot.get(k, 0) + js[k]
